@@ -233,6 +233,11 @@ def run(ctx):
                 ctx.count(f"{name}:{st}")
                 preq = plan_request(name, args, d) if st != "hang" else None
                 if preq is not None:
+                    if name == "add_mark" and st == "ok" and added > 0:
+                        # hypothesis of planAddMark_exact: no inline node with content is visited
+                        nonflat = []
+                        d.nodes_between(args[0], args[1], lambda n, p, par, i: nonflat.append(p) if n.is_inline and not n.is_leaf else None)
+                        ctx.count("add_mark:flat_range" if not nonflat else "add_mark:inline_node_with_content_in_range")
                     reqs.append(preq)
                     metas.append((replay, ("plan", name, st, [info.step(s) for s in tr.steps] if st == "ok" else None,
                                            info.node(tr.doc) if st == "ok" else None)))
